@@ -212,9 +212,11 @@ def run(prop: str, tier: str, extra=None) -> int:
     rep.extra["trace_lines"] = mon.lines
     # distinct non-trivial = traces that reached at least one situation the property is about
     rep.nontrivial = count_nontrivial(traces, prop)
-    rep.rule = ("driver B (seeded random commander, modes valid/mixed/pressure/susp) against the real Executor; every event validated by "
-                "TraceExec.tla; a trace is non-trivial for this property if it contains a result, a rejection or a suspension; "
-                "distinct = distinct (config, workload, command history) by construction of the seeds")
+    rep.rule = ("driver B (seeded random commander; modes valid / mixed / pressure / susp / swarm / orphan / reject - the last one goes on after "
+                "refusals -, kills from outside, tick rates 1-10 and 10 240 / 81 920) against the real Executor, plus - for C01-C04 and C10 - "
+                "recorded run_simulator runs of the shipped policies; every event validated by TraceExec.tla; a trace is non-trivial for this "
+                "property if it contains a result, a rejection or a suspension; distinct = distinct (config, workload, command history) by "
+                "construction of the seeds")
     for tr in traces[:2]:
         rep.samples.append({"trace_head": [slim(e) for e in tr[:4]]})
     lack = [(k, mon.counters.get(k, 0), need) for k, need in NEEDS[prop] if mon.counters.get(k, 0) < (need if tier == "quick" else need * 5)]
